@@ -21,8 +21,8 @@ class C07(Prop):
             "(recorded trades, commissions recomputed from the fee schedule, recorded interest, exchange quote history). "
             "Non-trivial = >= 2 record entries and (a spread or fees or a non-zero rate or latency > 0 or a margined "
             "contract); distinct = distinct cases")
-    rule = rule + es.CONTEXT_RULE
-    nontrivial_tags = {"spread", "fees", "rate", "latency", "margined", "delay"}
+    rule = rule + "; a tenth of the cases trade a futures chain across a roll (C11's episodes, any reward)" + es.CONTEXT_RULE
+    nontrivial_tags = {"spread", "fees", "rate", "latency", "margined", "delay", "chain-roll"}
     assumptions = [
         "the quote in force at an execution is the last history row stamped <= the recorded execution time",
         "rewards and NLVs compared at 1e-9 relative; log is a leaf (math.log vs Lean Float.log)",
@@ -30,6 +30,13 @@ class C07(Prop):
     COMPARE = {"ereset", "step", "stepi", "nrec", "recn", "state"}
 
     def gen(self, rng, tier):
+        if rng.random() < 0.1:
+            # a futures chain traded across a roll (the record's contracts change from one entry to the next)
+            from .c11 import roll_episode
+            case = roll_episode(rng, rng.choice(["ES", "NK", "VX", "ZN"]))
+            case["reward"] = rng.choice(["simple", "pnl", "log"])
+            case["_chain"] = True
+            return case
         rate_path = rng.random() < 0.5
         case, grid, keys = es.gen_episode(rng, tier, markov=False, warmup=None, one_per_bar=False,
                                           fees=rng.choice([["0", "0", "0"], ["0", "1/1000", "1/200"], ["1/4", "1/2000", "1/100"]]))
@@ -77,6 +84,8 @@ class C07(Prop):
                  Fraction(1, 10**9) * s.scale())
         if case.get("latency"):
             r.tags.add("latency")
+        if case.get("_chain"):
+            r.tags.add("chain-roll")
         if case.get("delay"):
             r.tags.add("delay")
         if s.fixed or s.prop:
